@@ -169,3 +169,24 @@ def run_cases(drv, cases, sc, tag, nshards=None):
         return cfp, tr, n, p
     with cf.ThreadPoolExecutor(max_workers=V.NCPU) as ex:
         return list(ex.map(one, items))
+
+
+def identity_cross_product():
+    """what an entry is and what it is called, combined: OS type x method x recorded length x file name header present x path header
+    present x kind of permissions x level.  The rules about entries without a name or a path, the Amiga directory quirk (-lh0-, length 0,
+    no name), symbolic links and the Mac pass-through each look at several of these at once."""
+    import itertools
+    out = []
+    k = 0
+    for osb, meth, ln, nm, pth, perm in itertools.product([ord("A"), ord("U"), ord("M"), ord("m"), 0], [b"-lh0-", b"-lhd-", b"-lh5-", b"-lzs-"], [0, 1],
+                                                         [None, b"n"], [None, b"p\xff", b""], [None, 0o120777, 0o40755, 0o100644]):
+        for lvl in (1, 2, 3):
+            k += 1
+            if lvl != 1 + k % 3 and (perm is not None or pth == b""):
+                continue               # (every combination at one level at least; the plainer ones at all three)
+            exts = ([arc.x_name(nm)] if nm is not None else []) + ([(arc.X_PATH, pth)] if pth is not None else []) + ([arc.x_perm(perm)] if perm is not None else [])
+            payload = b"" if (meth == b"-lhd-" or ln == 0) else b"x"
+            m = arc.Member(level=lvl, method=meth, name=b"", payload=payload, length=ln, crc=0 if not payload else arc.crc16(payload), time=1000000000 if lvl >= 2 else 0,
+                           os=osb, exts=exts)
+            out.append(m.bytes() + b"tail")
+    return out
